@@ -2461,3 +2461,95 @@ Q(name="e2_recvstream_received_reset", props=["C11"], func=r"streams/mod\.rs:\d+
   functions=["RecvStream::received_reset (HashMap entry / remove inlined from hashbrown)"], pre=lambda c: "true", post=rsr_post,
   bounds="every state of the receive map and of the stream: a stream that is no longer in the map, or that the application has stopped, reports ClosedStream; Ok(Some(code)) is returned only together with the removal of the stream (so it is observed once) and carries the code Recv::reset_code reported; in every other case the stream stays and Ok(None) is returned; as_open_recv / reset_code / stream_recv_freed opaque",
   replay=("streams_recvstream_received_reset_native", lambda m: [dict(mode=0), dict(mode=1), dict(mode=2)]))
+
+
+# ------------------------------------------------------------------ C17 / C12: rejected 0-RTT - streams rolled back, queued early frames dropped, early packets forgotten and taken out of flight (slice)
+def zrr_post(c, p):
+    st = p.p.state
+    if p.p.outcome != "stop":
+        return "true"
+    eda = p.called(r"Session>::early_data_accepted$")
+    if len(eda) != 1:
+        return "false"
+    accepted = c.ex.read_key(st, eda[0][2] + "@Some.0", BOOL).t
+    zr = p.called(r"StreamsState::zero_rtt_rejected$")
+    rd = p.called(r"<Retransmits as Default>::default$")
+    sd = p.called(r"<SentPackets as Default>::default$")
+    iv = p.called(r"SentPackets::into_values$")
+    nx = p.called(r"as Iterator>::next$")
+    rif = p.called(r"Connection::remove_in_flight$")
+    if not zr:
+        return "false" if (rd or sd or iv or rif) else accepted
+    data = "'SpaceId', %d)" % c.ex.enums["SpaceId"].index("Data")
+    idx = [x for x in p.called(r"IndexMut<SpaceId>>::index_mut$") if data in str(x[1][1])]
+    pend_f, sent_f = c.field("connection/spaces.rs", "PacketSpace", "pending"), c.field("connection/spaces.rs", "PacketSpace", "sent_packets")
+    if len(zr) != 1 or len(rd) != 1 or len(sd) != 1 or len(iv) != 1 or not idx:
+        return "false"
+    # the Data space's queue of frames to send is emptied, its record of sent packets is emptied and walked
+    if not any(c.ex.origin(st, "*%s.%d" % (x[2], pend_f)) == rd[0][2] for x in idx):
+        return "false"
+    if not any(c.ex.origin(st, "*%s.%d" % (x[2], sent_f)) == sd[0][2] for x in idx):
+        return "false"
+    if not re.search(r"\*_\d+\.%d$" % sent_f, str(iv[0][1][0][1])):
+        return "false"
+    snap = _Snap(st, iv[0][3])
+    acc0 = c.ex.read_key(snap, "*_1.%d" % c.field("connection/mod.rs", "Connection", "accepted_0rtt"), BOOL).t
+    out = [not_(accepted), not_(acc0)]
+    if "loop back-edge" in str(p.p.detail):
+        # one early packet was taken from the record: it leaves the in-flight accounting
+        if len(nx) != 1 or len(rif) != 1 or rif[0][1][1][0] != "ref" or c.ex.origin(st, _k(rif[0][1][1][1])) != nx[0][2] + "@Some.0":
+            return "false"
+    elif rif:
+        return "false"
+    return and_(*out)
+
+
+Q(name="e2_zero_rtt_rejection_slice", props=["C17", "C12"], func=r"connection/mod\.rs:\d+:1: \d+:16>::process_decrypted_packet$",
+  src="connection/mod.rs", within=r"^    fn process_decrypted_packet\(", start_line=r"if !?self\.crypto\.early_data_accepted\(\)\.unwrap\(\) \{",
+  end_line=[r"^                            self\.accepted_0rtt = true;", r"if let Some\(token\) = params\.stateless_reset_token \{"],
+  allowed_panics=r".", check_stop=True, loop_is_stop=True,
+  functions=["Connection::process_decrypted_packet (slice: the 0-RTT-rejected branch at handshake completion, one iteration of its loop)"], pre=lambda c: "true", post=zrr_post,
+  bounds="the handshake-completion branch for a client that attempted 0-RTT, from an ARBITRARY state: exactly when the TLS session reports early data as rejected, the streams are rolled back (zero_rtt_rejected), the Data space's queued frames are replaced by an empty set, its record of sent packets is emptied, every packet taken from that record (one loop iteration shown) is removed from the in-flight accounting, and accepted_0rtt is false; when early data was accepted none of this happens",
+  replay=("conn_zero_rtt_rejection_native", lambda m: [dict(accept=0), dict(accept=1)]))
+
+
+# ------------------------------------------------------------------ C14: the NEW_TOKEN reuse log never forgets a token it has accepted (one filter; set -> bloom conversion carries every fingerprint over)
+def bf_post(c, p):
+    st = p.p.state
+    if p.p.outcome not in ("return", "stop"):
+        return "true"
+    hins = p.called(r"HashMap.*::insert$|HashSet.*::insert$")
+    build = p.called(r"BloomFilter.*::with_num_bits$")
+    keys = p.called(r"HashMap.*::keys$|HashSet.*::iter$|HashSet.*::into_iter$")
+    nxt = p.called(r"as Iterator>::next$")
+    sh = p.called(r"BloomFilter.*::source_hash$|BloomFilter.*::insert$")
+    ih = p.called(r"BloomFilter.*::insert_hash$|BloomFilter.*::insert$")
+    was_set = eq(c.inp("*_1#discr", I64), bv(0))
+    if p.p.outcome == "stop":
+        # inside the carry-over loop: the element just taken from the old set goes into the new filter
+        if not (build and len(keys) == 1 and len(nxt) == 1 and len(sh) == 1 and len(ih) == 1):
+            return "false"
+        item = sh[0][1][1]
+        ok = item[0] == "ref" and c.ex.origin(st, _k(item[1]).lstrip("*")) in (nxt[0][2] + "@Some.0",) or str(c.ex.origin(st, _k(item[1]))).startswith("*" + nxt[0][2])
+        return "true" if ok else "false"
+    err = eq(c.ex.read_key(st, "_0#discr", I64).t, bv(1))
+    if hins:
+        # Set arm.  HashMap::insert returns Some(()) when the fingerprint was there already
+        present = eq(c.ex.read_key(st, hins[0][2] + "#discr", I64).t, bv(1))
+        if build:
+            # converted: only after walking the whole old set (this path saw the iterator run dry)
+            if len(keys) != 1 or not nxt or "@Set" not in str(keys[0][1][0][1]):
+                return "false"
+            return and_(was_set, not_(present), not_(err), eq(c.ex.read_key(st, "*_1#discr", I64).t, bv(1)))
+        return and_(was_set, eq(err, present), eq(c.ex.read_key(st, "*_1#discr", I64).t, bv(0)))
+    if len(ih) != 1 or build:
+        return "false"
+    seen = c.ex.read_key(st, ih[0][2], BOOL).t
+    return and_(not_(was_set), eq(err, seen))
+
+
+Q(name="e2_bloom_filter_check_and_insert", props=["C14"], func=r"bloom_token_log\.rs:\d+:1: \d+:12>::check_and_insert$",
+  allowed_panics=r".", check_stop=True, loop_is_stop=True,
+  functions=["bloom_token_log::Filter::check_and_insert (one iteration of the set -> bloom carry-over loop)"], pre=lambda c: "true", post=bf_post,
+  bounds="every filter state, fingerprint and size limit (the MIR is dumped with quinn-proto's `bloom` feature on): a fingerprint is refused exactly when the hash set / bloom filter reports it as present; a set that has outgrown its budget becomes a bloom filter only after an iterator over the WHOLE old set has run dry, and every element that iterator yields is inserted into the new filter (one iteration shown) - so no accepted token is forgotten by the conversion; hashbrown / fastbloom operations are opaque",
+  replay=("token_bloom_replay_native", lambda m: [dict(n=200, budget=800), dict(n=20, budget=800), dict(n=500, budget=4096)]))
